@@ -1185,7 +1185,7 @@ static sexp analyze (sexp ctx, sexp object, int depth, int defok) {
             sexp_warn(ctx, "too many args for opcode: ", x);
             tmp = op = analyze_var_ref(ctx, sexp_car(x), NULL);  /* op is a fresh Ref: keep it rooted while the arguments are analyzed */
           }
-          res = analyze_list(ctx, sexp_cdr(x), 0, 0);
+          res = analyze_list(ctx, sexp_cdr(x), depth, 0);
           if (! sexp_exceptionp(res)) {
             /* push op, which will be a direct opcode if the call is valid */
             sexp_push(ctx, res, op);
